@@ -866,6 +866,21 @@ def local_bytes(facts, b, l, depth=0):
                 if pl['p'] and not all(e['k'] == 'deref' for e in pl['p']):
                     return None
                 r = local_bytes(facts, b, pl['l'], depth + 1)
+            elif rv['k'] == 'aggr' and rv.get('ak') == 'array' and 1 <= len(rv.get('ops', [])) <= 4:
+                # `[sep(i)]`, `[b'x', y]`: every element a constant or a value with known possible bytes
+                combos = {b''}
+                for o in rv['ops']:
+                    if o['k'] == 'const' and isinstance(o.get('v'), int):
+                        ro = {bytes([o['v'] & 0xff])}
+                    else:
+                        ro = possible_bytes(facts, b, o, depth + 1)
+                    if ro is None or any(len(x) != 1 for x in ro) or len(combos) * len(ro) > 64:
+                        combos = None
+                        break
+                    combos = {x + y for x in combos for y in ro}
+                if combos is None:
+                    return None
+                r = combos
             else:
                 return None
         else:
